@@ -87,3 +87,19 @@ check(
     "lock-step differential testing of the two mixins over enumerated single steps and Hypothesis histories",
     "DESIGN.md section 4 C18",
 )
+check(
+    "C07",
+    "exploration",
+    "Trees up to 12 nodes with adversarial names, six separators, both path attributes and all four ignorecase/relax combinations: for every ordered node pair the absolute path and the relative path spelled from Walker.walk must resolve to the target (identity), and generated component sequences (names, unknown names, '..', '.', '', leading/trailing/double separators) must give exactly the node or exception class (and exc.node) a reference interpreter of the statement gives; relaxed mode must return None exactly there and never raise. All short paths over a 7-symbol alphabet are enumerated on all small shapes.",
+    "Trusts vf/resolver_ref.py ref_get; names never contain separator characters, are never '', '.', '..'; special-casing characters are not generated. Found and repaired defect D3 (fix: commit 093226e) is replayed as regression input.",
+    "Hypothesis trees/names/paths + exhaustive short paths vs. reference path interpreter and two round trips",
+    "DESIGN.md section 4 C07",
+)
+check(
+    "C08",
+    "exploration",
+    "Every query runs in relaxed and strict mode on the shared class-level pattern cache (queries of a case form a cache history with more than 20 distinct components, ignorecase pairs and explicit clears). Relaxed: never raises, identity set equals a reference evaluator with its own DP wildcard matcher, pre-order/duplicate clauses. Strict: same list or ResolverError only with a genuine dead end; wildcard-free patterns agree with get. All patterns of <= 3 (quick) / <= 4 (thorough) components over a 9-symbol alphabet are enumerated on all shapes <= 4/5 nodes.",
+    "Trusts vf/resolver_ref.py ref_glob/wildmatch; '**' as absolute root component not generated; strict clauses only on sibling-unique names. Defect D4 repaired (fix: 7a838a2); KF-C08-1 recognised only by its dead-end signature with the subsequence requirement.",
+    "Hypothesis patterns/cache histories + exhaustive short patterns vs. reference glob evaluator; relaxed/strict/get metamorphic relations",
+    "DESIGN.md section 4 C08",
+)
